@@ -151,7 +151,15 @@ def r5(ctx):
         steer = [c.bb for c in u.calls(r'KalmanClockController::steer_offset$')]
         ctx.check('update_clock|startup-cleared-after-steer', all(not u.can_reach(s.bb, x) for x in steer) and all(u.can_reach(x, s.bb) for x in steer),
                   'in_startup is cleared before steering', s.where())
-        ctx.guard(u, s, 'consensus', fact_is(r'^combiner::combine\(|^kalman::combiner::combine\(|combine\(', 'Some'), key='update_clock|startup-cleared|consensus')
+        cons = fact_is(r'^combiner::combine\(', 'Some')
+        ctx.guard(u, s, 'consensus', cons, key='update_clock|startup-cleared|consensus')
+        # ... and on EVERY path of a successful update: otherwise later steps keep being judged by the
+        # (lenient) startup threshold and are never accumulated
+        starts = edge_targets(u, cons)
+        ok = len(starts) == 1 and all(must_pass_block_from(u, starts[0], r.bb, [s.bb]) for r in u.returns())
+        ctx.check('update_clock|startup-cleared-on-every-consensus-path', ok,
+                  'a successful clock update can return without leaving startup mode (in_startup = false is skipped on some path), so the '
+                  'single-step and accumulated thresholds are not applied to later steps', s.where(), sample={'consensus_edges': len(starts)})
 
 
 RULES = [r1, r2, r3, r4, r5]
